@@ -402,12 +402,17 @@ Definition flags_of (tk : task) (s : fs) : cfg :=
      c_st := fun i => match s (PTmp i) with Absent => false | _ => true end |}.
 
 (* ------------------------------------------------------------------ *)
-(* the exact per-task shape (informational)                            *)
+(* one strict protocol per task                                        *)
 (* ------------------------------------------------------------------ *)
-(* What each task does today with one output file, written from its source
-   (table at the top of this file).  [accepts] - which the theorems are
-   about - admits more (the union, any number of rounds); the harness
-   reports, without alarm, when a task no longer has exactly this shape. *)
+(* What each task does with one output file, written from its source
+   (table at the top of this file): which stale files setup removes, how
+   the temporary file is created, and exactly how many re-open/append
+   rounds follow.  Each is a regular language (a finite automaton per task;
+   the counter of remaining rounds is bounded by [append_rounds]) and a
+   sub-language of the union automaton [step_file]
+   (Proofs/C10.v: accepts_task_sub), so the safety theorems apply to it.
+   The correspondence run reports a trace that leaves its task's strict
+   language as a warning; the obligation is the union automaton. *)
 
 (* common.setup_task_paths is called (all tasks but split) *)
 Definition has_setup (tk : task) : bool :=
@@ -417,69 +422,94 @@ Definition has_setup (tk : task) : bool :=
 Definition creates_trunc (tk : task) : bool :=
   match tk with Compress | Condense | Repack => true | _ => false end.
 
-(* re-open/append rounds after the creating round (RTDCWriter on path_temp) *)
+(* re-open/append rounds after the creating round (RTDCWriter on path_temp):
+   compress, join, split, tdms2rtdc append their logs in a second round *)
 Definition append_rounds (tk : task) : nat :=
   match tk with Condense | Repack => 0 | _ => 1 end.
 
-Definition lop_eqb (a b : lop) : bool :=
-  match a, b with
-  | LUnlinkOut, LUnlinkOut | LUnlinkTmp, LUnlinkTmp
-  | LCreateTrunc, LCreateTrunc | LOpenAppend, LOpenAppend
-  | LWrite, LWrite | LClose, LClose | LRename, LRename
-  | LOpenReadTmp, LOpenReadTmp | LOpenReadOut, LOpenReadOut
-  | LCloseOut, LCloseOut => true
-  | _, _ => false
+Inductive sphase :=
+| S0 | S1 | S2
+| SW (r : nat)      (* writing; r append rounds still to come *)
+| SC (r : nat)      (* closed *)
+| SDone.
+
+Definition abs_phase (sp : sphase) : phase :=
+  match sp with
+  | S0 => P0 | S1 => P1 | S2 => P2
+  | SW _ => PW | SC _ => PC | SDone => PDone
   end.
 
-(* the local operations on output file i, in order *)
-Fixpoint proj (i : nat) (t : list op) : list lop :=
-  match t with
-  | [] => []
-  | o :: t' =>
-      match classify o with
-      | CFile k l => if Nat.eqb k i then l :: proj i t' else proj i t'
-      | _ => proj i t'
-      end
-  end.
-
-Definition expect (x : lop) (l : option (list lop)) : option (list lop) :=
+Definition is_create (tk : task) (l : lop) : bool :=
   match l with
-  | Some (y :: r) => if lop_eqb x y then Some r else None
-  | _ => None
-  end.
-
-Fixpoint drop_writes (l : list lop) : list lop :=
-  match l with
-  | LWrite :: r => drop_writes r
-  | _ => l
-  end.
-
-Definition writes_then_close (l : option (list lop)) : option (list lop) :=
-  match l with
-  | Some l' => expect LClose (Some (drop_writes l'))
-  | None => None
-  end.
-
-Fixpoint rounds_exact (n : nat) (l : option (list lop)) : option (list lop) :=
-  match n with
-  | O => l
-  | S n' => rounds_exact n' (writes_then_close (expect LOpenAppend l))
-  end.
-
-Definition strict_file (tk : task) (so st : bool) (l : list lop) : bool :=
-  let l0 := Some l in
-  let l1 := if has_setup tk && so then expect LUnlinkOut l0 else l0 in
-  let l2 := if has_setup tk && st then expect LUnlinkTmp l1 else l1 in
-  let l3 := expect (if creates_trunc tk then LCreateTrunc else LOpenAppend) l2 in
-  let l4 := writes_then_close l3 in
-  match rounds_exact (append_rounds tk) l4 with
-  | Some [LRename] => true
+  | LCreateTrunc => creates_trunc tk
+  | LOpenAppend => negb (creates_trunc tk)
   | _ => false
   end.
 
-Definition strict_shape (c : cfg) (n : nat) (t : list op) : bool :=
-  forallb (fun i => strict_file (c_task c) (c_so c i) (c_st c i) (proj i t))
-          (seq 0 n).
+Definition sstep_file (tk : task) (so st : bool) (sp : sphase) (l : lop)
+  : option sphase :=
+  match sp, l with
+  | S0, LUnlinkOut => if has_setup tk && so then Some S1 else None
+  | S0, LUnlinkTmp =>
+      if has_setup tk && negb so && st then Some S2 else None
+  | S1, LUnlinkTmp => if has_setup tk && st then Some S2 else None
+  | S0, (LCreateTrunc | LOpenAppend) =>
+      if is_create tk l && negb (has_setup tk && so) && negb st
+      then Some (SW (append_rounds tk)) else None
+  | S1, (LCreateTrunc | LOpenAppend) =>
+      if is_create tk l && negb st then Some (SW (append_rounds tk))
+      else None
+  | S2, (LCreateTrunc | LOpenAppend) =>
+      if is_create tk l then Some (SW (append_rounds tk)) else None
+  | SW r, LWrite => Some (SW r)
+  | SW r, LClose => Some (SC r)
+  | SC (S r), LOpenAppend => Some (SW r)
+  | SC O, LRename => Some SDone
+  | _, _ => None
+  end.
+
+Definition sstate := nat -> sphase.
+
+Definition supd (ss : sstate) (i : nat) (sp : sphase) : sstate :=
+  fun k => if Nat.eqb k i then sp else ss k.
+
+Definition sstep (c : cfg) (ss : sstate) (o : op) : option sstate :=
+  match classify o with
+  | CBad => None
+  | CRead => Some ss
+  | CFile i l =>
+      match sstep_file (c_task c) (c_so c i) (c_st c i) (ss i) l with
+      | Some sp => Some (supd ss i sp)
+      | None => None
+      end
+  end.
+
+Fixpoint srun (c : cfg) (ss : sstate) (t : list op) : option sstate :=
+  match t with
+  | [] => Some ss
+  | o :: t' =>
+      match sstep c ss o with
+      | Some ss' => srun c ss' t'
+      | None => None
+      end
+  end.
+
+Definition ss0 : sstate := fun _ => S0.
+
+Definition is_sdone (sp : sphase) : bool :=
+  match sp with SDone => true | _ => false end.
+
+(* the strict protocol of task [c_task c] *)
+Definition accepts_task (c : cfg) (n : nat) (t : list op) : bool :=
+  (multi_output (c_task c) || Nat.eqb n 1)
+  && forallb (op_index_lt n) t
+  && match srun c ss0 t with
+     | Some ss => forallb (fun i => is_sdone (ss i)) (seq 0 n)
+     | None => false
+     end.
+
+(* the rename tail of split: parts 0 .. n-1 in order *)
+Definition ren (i : nat) : op := Rename (PTmp i) (POut i).
 
 (* ------------------------------------------------------------------ *)
 (* interface for the correspondence check (Gen/TaskTraces.v, harness)  *)
@@ -515,7 +545,7 @@ Definition vis_code (v : vis) : Z :=
 
 (* [accepted; first rejected position; number of operations;
     then for every output i: view of out_i, view of tmp_i after the
-    fault-free run; last: the trace has the exact per-task shape] *)
+    fault-free run; last: the trace is in its task's strict language] *)
 Definition check_case (tc : traced_case) : list Z :=
   match tc with
   | (tk, n, so, st, rle) =>
@@ -528,14 +558,19 @@ Definition check_case (tc : traced_case) : list Z :=
       ++ flat_map (fun i => [vis_code (view (wcount i t) (sF (POut i)));
                              vis_code (view (wcount i t) (sF (PTmp i)))])
                   (seq 0 n)
-      ++ [ (if strict_shape c n t then 1 else 0)%Z ]
+      ++ [ (if accepts_task c n t then 1 else 0)%Z ]
   end.
 
 (* predicted observation after a fault at operation k:
    for every output i: view of out_i, view of tmp_i; then for every input
    j < nin: 1 if unchanged *)
+(* 0: killed; 1: raises without effect, unwinding closes the files;
+   2: raises after a partial effect on the file, and the unwinding fails
+   again *)
 Definition fault_of (kind : Z) : fault :=
-  if (kind =? 0)%Z then Kill else Raise false (fun _ => Some 0%N).
+  if (kind =? 0)%Z then Kill
+  else if (kind =? 2)%Z then Raise true (fun _ => None)
+  else Raise false (fun _ => Some 0%N).
 
 Definition predict (tc : traced_case) (nin : nat) (k : nat) (kind : Z)
   : list Z :=
